@@ -124,6 +124,8 @@ DriftFails(b, v) ==
                         \/ w.length # V2!ViewLength(raw) \/ w.len # Len(raw) \/ w.is_empty \/ w.af # m2.addr.k
                         \/ w.tlvs_len # (Len(V2!ViewTlvBytes(raw)) % 65536) \/ w.tlvs_empty # (V2!ViewTlvBytes(raw) = << >>) \/ ~w.tlvs_bytes_eq
                         \/ w.afbl # (IF m2.addr.k = "Unspecified" THEN -1 ELSE V2!FamilySize(V2!FamilyCode(m2.addr.k)))
+                        \/ w.alen # V2!FamilySize(V2!FamilyCode(m2.addr.k)) \/ w.afsize # V2!FamilySize(V2!FamilyCode(m2.addr.k))
+                        \/ w.aempty # (m2.addr.k = "Unspecified")
                      THEN {<< "DRIFT", "v2-views", "v2" >>}
                      ELSE IF w.disp # Msg!V2HeaderDisplay(raw[13], raw[14], V2!ViewLength(raw)) THEN {<< "DRIFT", "v2-display", "v2" >>}
                      ELSE {}
